@@ -1,12 +1,12 @@
 SPECIFICATION Spec
 CONSTANTS
   NMsgs = 3
-  QosOf <- Q_212
+  QosOf <- Q_222
   MaxFaults = 2
   SessionLoss = TRUE
   ClearAfterRequeue = TRUE
-  KeepOldWaiter = FALSE
-  LossyWrites = TRUE
+  KeepOldWaiter = TRUE
+  LossyWrites = FALSE
 INVARIANT Qos2AtMostOnce
 INVARIANT CompletedIsDelivered
 INVARIANT NoPubrelUnanswered
